@@ -425,6 +425,28 @@ def norm_path(d):
     return d
 
 
+ENUM_ALIAS_KEY = "descriptor-differs:message_type.field<TYPE_ENUM>.default_value"      # as listed in KNOWN_FINDINGS.txt
+
+
+def alias_names(files, detail):
+    """detail = '<path>: stable="A" experimental="B"': are A and B two names some enum of the file set gives to one number?"""
+    m = re.search(r'stable="(\w+)" experimental="(\w+)"$', detail)
+    if not m or m.group(1) == m.group(2):
+        return False
+    a, b = m.groups()
+    for text in files.values():
+        for body in re.findall(r"\benum\s+\w+\s*\{([^{}]*)\}", text):
+            nums = {}
+            for name, num in re.findall(r"\b(\w+)\s*=\s*(-?(?:0[xX][0-9a-fA-F]+|\d+))", body):
+                try:
+                    nums[name] = int(num, 0) if not re.fullmatch(r"-?0\d+", num) else int(num, 8)
+                except ValueError:
+                    pass
+            if a in nums and b in nums and nums[a] == nums[b]:
+                return True
+    return False
+
+
 PERTURB = [("identity", True), ("source-info", True), ("known-to-unknown", True), ("json-name", False), ("label", False), ("default", False),
            ("number", False), ("option-flip", False), ("drop-dependency", False), ("rename-message", False), ("swap-fields", False),
            ("drop-syntax", False), ("extra-unknown", False)]
@@ -492,6 +514,13 @@ def judge(ctx, files, request, klass, o, terms, meta):
                     if det.startswith(d + ": "):
                         if det.endswith('stable="0" experimental="-0"'):
                             keys.add("descriptor-differs:message_type.field.default_value:negative-zero-integer-literal")
+                        elif "<TYPE_ENUM>" in d:
+                            # one key per cause here too: the two names are aliases (the same number of one enum) - the known class,
+                            # on a message field or on an extension alike - or they are not
+                            if alias_names(files, det):
+                                keys.add(ENUM_ALIAS_KEY)
+                            else:
+                                keys.add("descriptor-differs:" + norm_path(d) + ":names-of-different-numbers")
                         else:
                             keys.add("descriptor-differs:" + norm_path(d))
             if not keys:
